@@ -299,6 +299,11 @@ def run(ctx, report: Report) -> None:
     from .e2ematch import no_raise_table
     no_raise_table(ctx, r8, deep=(ctx.tier == 'thorough'))
 
+    # ---- R9 --------------------------------------------------------------------------------------------------------------
+    r9 = report.rule('C08-R9', 'tree walks are iterative: no navigation helper is part of a call cycle', floor=5)
+    from .sem import no_tree_recursion_rule
+    no_tree_recursion_rule(ctx, r9)
+
 
 
 def _spin_rule(ctx, r5, mmod, reach):
